@@ -14,6 +14,7 @@ package main
 
 import (
 	"bufio"
+	"context"
 	"encoding/json"
 	"errors"
 	"flag"
@@ -258,6 +259,16 @@ func runValues(out string) {
 		{"marshalFailCtl", mFailCtl{}}, {"valuerMarshalFailCtl", lazy{slog.AnyValue(mFailCtl{})}}, {"errCtl", errors.New(ctlText)},
 		{"ansiCtl", logger.AnsiString{Prefix: "\x1b[31m", Value: ctlText}}, {"mapCtl", map[string]string{ctlText: ctlText}},
 		{"chan", make(chan int)}, {"func", func() {}}, {"strptrnil", (*string)(nil)}, {"jsonnumber", json.Number("12")},
+		// raw JSON in every layout a RawMessage may have: indented, with a trailing newline, not JSON at all
+		{"rawPretty", json.RawMessage("{\n  \"a\": 1\n}")}, {"rawTrailingNL", json.RawMessage("{\"a\":1}\n")}, {"rawGarbage", json.RawMessage("{a")},
+		{"rawInMap", map[string]json.RawMessage{"a": json.RawMessage("1\n")}}, {"valuerRawPretty", lazy{slog.AnyValue(json.RawMessage("{\n\t\"a\" : 1 }\n"))}},
+	}
+	// times in zones on both sides of UTC, in particular offsets between -01:00 and 00:00 and non-hour offsets
+	for _, off := range []int{-30, -1, 30, -60, 345, -570, 840, -720, -59, 59} {
+		kinds = append(kinds, struct {
+			name string
+			v    any
+		}{"timeZ", t0.In(time.FixedZone("", off*60))})
 	}
 	for _, addSource := range []bool{false, true} {
 		for _, level := range []slog.Level{logger.LevelDebug, logger.LevelInfo, logger.LevelWarn, logger.LevelError, logger.LevelFatal} {
@@ -270,7 +281,14 @@ func runValues(out string) {
 					l := logger.New(logger.NewJsonHandler(c, logger.NewOptions(logger.LevelDebug, false, addSource)))
 					switch where {
 					case "site":
-						l.Log(nil, level, "m", "v", k.v, "z", 1)
+						if tz, isT := k.v.(time.Time); isT && k.name == "timeZ" && !addSource {
+							// the record's own time in that zone as well (straight through the handler)
+							r := slog.NewRecord(tz, level, "m", 0)
+							r.Add("v", k.v, "z", 1)
+							logger.NewJsonHandler(c, logger.NewOptions(logger.LevelDebug, false, false)).Handle(context.Background(), r)
+						} else {
+							l.Log(nil, level, "m", "v", k.v, "z", 1)
+						}
 					case "with":
 						l.With("v", k.v).Log(nil, level, "m", "z", 1)
 					default:
@@ -278,6 +296,11 @@ func runValues(out string) {
 					}
 					line, ok := oneLine(c)
 					toks, _ := lex(line)
+					recTimeOK := true
+					if tz, isT := k.v.(time.Time); isT && k.name == "timeZ" && where == "site" && !addSource && len(toks) > 3 {
+						g, err := time.Parse(time.RFC3339Nano, toks[3].X)
+						recTimeOK = err == nil && g.Equal(tz)
+					}
 					maskTime(toks)
 					shorten(toks)
 					rt := true
@@ -291,12 +314,12 @@ func runValues(out string) {
 							}
 						}
 					}
-					if k.name == "time" {
+					if k.name == "time" || k.name == "timeZ" {
 						rt = false
 						for i := range toks {
 							if toks[i].T == "s" && toks[i].X == "v" && i+2 < len(toks) {
 								if g, err := time.Parse(time.RFC3339Nano, toks[i+2].X); err == nil && g.Equal(t0) {
-									rt = true
+									rt = recTimeOK
 								}
 							}
 						}
